@@ -56,6 +56,15 @@ def gen_value(rng, U: Universe, f: FS, hostile: float = 0.15) -> Any:
         return tuple(rng.choice([0, 1, 2, 3]) for _ in range(rng.randint(0, 3)))
     if k == "tstr":
         return tuple(gen_str(rng, hostile) for _ in range(rng.randint(0, 3)))
+    if k == "decimal":
+        from decimal import Decimal
+
+        return Decimal(rng.choice(["1.001", "1.002", "1.00", "1", "2.5", "2.50", "-0.004"]))
+    if k == "valueobj":
+        m = U.module.__dict__
+        P_ = U.P
+        I, St, L = m[f"{P_}IntT"], m[f"{P_}StrT"], m[f"{P_}ListOf"]
+        return rng.choice([None, I(), St(), L(I()), L(St()), L(L(I())), L(L(St())), L(()), L(None), (I(),), (St(),)])
     if k == "nested":
         return rng.choice([((1, 2), 3), ((1, 2, 3),), (1, (2, 3)), ((1,), (2, 3)), (1, 2, 3), ((),), (), ("pkg", ("mod", "cls")), ("pkg", ("mod",), "cls"), (("pkg", "mod"), "cls")])
     if k == "flags":
@@ -112,6 +121,9 @@ class TreeGen:
         self.hostile = hostile
         # the class with an opaque (unserializable, identity-equal) property value takes part only on request
         self.exclude = tuple(exclude) + (() if opaque else (f"{getattr(U, 'P', 'U')}Handle",))
+        if any(x.endswith("Blob") for x in exclude):
+            # generators that leave out what has no (faithful) wire form also leave out these
+            self.exclude += tuple(f"{getattr(U, 'P', 'U')}{n}" for n in ("Meta", "Typed", "Nested"))
         self.share = share
         self.twin = twin
         self.leaf_bias = leaf_bias
